@@ -11,7 +11,7 @@
 -/
 import Kopf.Model.C04_Diff
 import Kopf.Model.C04_Essence
-import Kopf.Lemmas.C04_Payload
+import Kopf.Lemmas.C04_WF
 namespace Kopf.C04
 open Kopf Kopf.J
 
@@ -146,6 +146,32 @@ example : pfx "kopf.zalando.org/touch-dummy" = some "kopf.zalando.org".toList :=
 example : Robust [("my-op.example.com/kopf-managed", .str "yes")] "my-op.example.com/create_fn" "my-op.example.com".toList :=
   Or.inr ⟨"my-op.example.com/kopf-managed", by decide, by decide, by decide⟩
 
+/-- **The first annotation write** on an object that has no `metadata.annotations` yet (a fresh
+    object): if every key written is dropped by the marked-prefix rule (all under `kopf.zalando.org`
+    or a sub-domain — the defaults —, or the `kopf-managed` marker is written along, as the storages
+    do), the essence is unchanged. Every configuration and body; handler fields outside `metadata`. -/
+theorem first_annotation_write_invisible (cfg : Cfg) (extra : List (List String)) (kvs m A' : Kvs)
+    (hm : lookup "metadata" kvs = some (.obj m)) (ha : lookup "annotations" m = none)
+    (hall : ∀ kv, kv ∈ A' → keepAnnotation (markedPrefixes (keys A')) kv.1 = false)
+    (hx : ExtraAvoids "metadata" extra) :
+    essence cfg extra (.obj (withAnn kvs m A')) = essence cfg extra (.obj kvs) :=
+  essence_firstAnn cfg extra hm ha hall hx
+
+/-- the hypothesis holds for what the default storages write first … -/
+example : ∀ kv, kv ∈ [("kopf.zalando.org/create_fn", J.str "{}"), ("kopf.zalando.org/last-handled-configuration", J.str "{}")] →
+    keepAnnotation (markedPrefixes (keys [("kopf.zalando.org/create_fn", J.str "{}"),
+      ("kopf.zalando.org/last-handled-configuration", J.str "{}")])) kv.1 = false := by
+  intro kv h
+  simp only [List.mem_cons, List.mem_nil_iff, or_false] at h
+  rcases h with rfl | rfl <;> decide
+/-- … and for a custom prefix together with its marker. -/
+example : ∀ kv, kv ∈ [("my-op.example.com/create_fn", J.str "{}"), ("my-op.example.com/kopf-managed", J.str "yes")] →
+    keepAnnotation (markedPrefixes (keys [("my-op.example.com/create_fn", J.str "{}"),
+      ("my-op.example.com/kopf-managed", J.str "yes")])) kv.1 = false := by
+  intro kv h
+  simp only [List.mem_cons, List.mem_nil_iff, or_false] at h
+  rcases h with rfl | rfl <;> decide
+
 /-- the marker matters: the *first* write under a custom, not yet marked prefix removes a foreign
     annotation squatting under that prefix from the essence (documented assumption: the operator's
     prefix is reserved for the operator). -/
@@ -173,16 +199,21 @@ theorem essence_injective_on_payload (cfg : Cfg) (extra : List (List String)) (k
     lookup k kvs = lookup k kvs' := by
   rw [← payload_exact cfg extra kvs e k hk hd hp h, ← payload_exact cfg extra kvs' e k hk hd hp h']
 
+/-- the essence of a well-formed body is well-formed (so the diff theorems apply to essences). -/
+theorem essence_wf (cfg : Cfg) (extra : List (List String)) (b e : J) (hb : J.WF b)
+    (h : essence cfg extra b = .ok e) : J.WF e :=
+  wf_essence hb h
+
 /-- **Any change of a payload field counts**: if a payload stanza differs (not `≈`) between two
-    bodies, the diff of their essences is non-empty — handling is triggered.
-    (`WF` of the two essences is a hypothesis here: it holds for every parsed JSON; the preservation
-    of `WF` by `essence` is not proved in Lean.) -/
+    well-formed bodies, the diff of their essences is non-empty — handling is triggered. -/
 theorem payload_change_detected (cfg : Cfg) (extra : List (List String)) (kvs kvs' : Kvs) (e e' x y : J) (k : String)
     (hk : PayloadKey k) (hd : AvoidKey k (diffbaseFields cfg.diffbase)) (hp : AvoidKey k (progressFields cfg.progress))
+    (hb : J.WF (.obj kvs)) (hb' : J.WF (.obj kvs'))
     (h : essence cfg extra (.obj kvs) = .ok e) (h' : essence cfg extra (.obj kvs') = .ok e')
-    (hwe : J.WF e) (hwe' : J.WF e')
     (hx : lookup k kvs = some x) (hy : lookup k kvs' = some y) (hne : ¬ x ≈ y) :
     diff e e' [] ≠ [] := by
+  have hwe := essence_wf cfg extra _ e hb h
+  have hwe' := essence_wf cfg extra _ e' hb' h'
   intro hnil
   have heq := (diff_empty_iff e e' [] hwe hwe').1 hnil
   have g := payload_exact cfg extra kvs e k hk hd hp h
@@ -266,13 +297,11 @@ theorem multi_drs_witness :
   * `own_unmarked_prefix_invisible_partial` — own keys under a custom prefix that is *not* marked
     (before the first marker write; prefixes starting with `kopf.`, for which no marker is written)
     are cleaned by the exact last-handled keys (`AnnotationsDiffBaseStorage.build`) and by
-    `AnnotationsProgressStorage.clear`; the essence-level invariance for that route, and the
-    absent→present transition of the `metadata.annotations` mapping itself, are not proved.
+    `AnnotationsProgressStorage.clear`; the essence-level invariance for that route is not proved.
     F9 (known finding) shows the route is in fact broken for `MultiDiffBaseStorage` + `-ofDRS`.
   * label / ordinary-annotation changes reach the diff of the essences (the analogue of
     `payload_change_detected` below `metadata`): proved only at the level of the annotation filter
     (`ordinary_annotation_kept`).
-  * `J.WF (essence …)`.
 -/
 
 end Kopf.C04
